@@ -51,7 +51,28 @@ type checker struct {
 	byG        map[string]bool // canonical descriptor -> replay agreed with the spec
 	tofu       map[string]*soyhtml.Tofu
 	unsupported map[string]string
+
+	// worker side (see worker.go): reports go to sink instead of ctx
+	sink    *sinkT
+	hb      func(label string)
+	verbose bool
+	// parent side: shapes confirmed not to return
+	hangs *hangRegistry
 }
+
+func newChecker(ctx *core.Ctx) *checker {
+	c := &checker{ctx: ctx, size: 1, byG: map[string]bool{}, tofu: map[string]*soyhtml.Tofu{}, unsupported: map[string]string{}, hangs: &hangRegistry{}}
+	if ctx != nil {
+		c.size = ctx.Pick(1, 2)
+	}
+	return c
+}
+
+// stall is how long a worker may make no progress before it is killed.
+func (c *checker) stall() time.Duration { return 5 * time.Second }
+
+// nWorkers: worker processes used for the real-code phases.
+const nWorkers = 8
 
 // Run is the entry point for C20.
 func Run(ctx *core.Ctx) {
@@ -61,9 +82,19 @@ func Run(ctx *core.Ctx) {
 		"not judged (no source decides): embedded struct -> nested under its type name or promoted; equality of distinct list/map instances beyond symmetry; text of +-Inf and of fractional floats; Go arrays and other kinds the converter rejects by panicking; uint64 >= 2^63; pointers to data.Values",
 		"integers within int64 (|n| >= 2^30 cross the TLC boundary as digit strings and are only compared as strings); floats restricted to small dyadic rationals, NaN/+-Inf/-0 symbolic")
 	ctx.Trusted = append(ctx.Trusted, "Go harness: construction of real Go values from descriptors (reflect), deep comparison, encoders", "TLC 1.8 + CommunityModules Json")
-	c := &checker{ctx: ctx, size: ctx.Pick(1, 2), byG: map[string]bool{}, tofu: map[string]*soyhtml.Tofu{}, unsupported: map[string]string{}}
+	c := newChecker(ctx)
 	if ctx.ReplayPath != "" {
-		c.replay(ctx.ReplayPath)
+		// the replayed case runs in a worker too: it may be one that does not return
+		r := oneShot(&wtask{ID: 1, Kind: "replay", Text: ctx.ReplayPath}, 30*time.Second)
+		switch {
+		case r.stalled:
+			ctx.Violation(core.Sig{Family: famConvert, Feature: "no-return:replayed-case"},
+				"the replayed case does not return within 30s (last step: "+r.label+")", map[string]interface{}{"kind": "replay", "path": ctx.ReplayPath})
+		case r.died != "":
+			ctx.ToolError("replay worker: %s", r.died)
+		default:
+			c.apply(r.sink)
+		}
 		return
 	}
 	c.run()
@@ -194,7 +225,8 @@ func (c *checker) run() {
 	ctx.Exhaustive = true // the bounded pools are enumerated completely
 	ctx.Extra["exhaustive_scope"] = "M1/M2: the bounded pools of SoyData.tla (every abstract Go value of depth <= 2 built from them, all option settings, all ordered pairs of the depth <= 1 family) are enumerated completely; M3 is a seeded sample"
 
-	// M2: replay
+	// M2: replay (in worker processes)
+	var allCases []map[string]interface{}
 	for _, j := range mcJobs {
 		if j.res == nil || j.err != nil || j.res.Violated != "" {
 			continue
@@ -207,10 +239,9 @@ func (c *checker) run() {
 		if int64(len(cases)) != j.res.Distinct {
 			ctx.ToolError("%s: %d cases printed for %d states", j.name, len(cases), j.res.Distinct)
 		}
-		for _, cs := range cases {
-			c.replayCase(cs)
-		}
+		allCases = append(allCases, cases...)
 	}
+	c.replayCases(allCases)
 	c.replayPairs(pairJobs)
 	c.replayHistories(histJob)
 
@@ -241,7 +272,12 @@ func (c *checker) run() {
 
 	ctx.Extra["arrays_converter_panics_not_judged"] = c.arrayPanic
 	ctx.Extra["arrays_converted"] = c.arrayOK
-	ctx.Extra["unsupported_kinds_observed"] = c.probeUnsupported()
+	if r := oneShot(&wtask{ID: 1, Kind: "probe"}, c.stall()); r.done {
+		ctx.Extra["unsupported_kinds_observed"] = r.res
+	} else {
+		ctx.Extra["unsupported_kinds_observed"] = "the probe did not return (" + r.label + r.died + ")"
+	}
+	ctx.Extra["non_returning_shapes_confirmed"] = c.hangs.count()
 	if c.buildErrs > 0 {
 		ctx.ToolError("%d descriptors could not be built (harness/spec mismatch)", c.buildErrs)
 	}
@@ -317,38 +353,77 @@ func structOpts(lc bool, tf string) data.StructOptions {
 
 func isArray(d D) bool { return dstr(d, "g") == "array" }
 
-// replayCase runs one exported case (g, o) on the real code.
-func (c *checker) replayCase(cs map[string]interface{}) {
+// replayCases runs the exported cases on the real code, in workers.
+func (c *checker) replayCases(cases []map[string]interface{}) {
 	ctx := c.ctx
+	tasks := make([]*wtask, len(cases))
+	for i, cs := range cases {
+		tasks[i] = &wtask{Kind: "case", CS: cs}
+	}
+	results := c.runTasks(tasks, nWorkers, c.stall())
+	skipped, unrun := 0, 0
+	for i, r := range results {
+		cs := cases[i]
+		g, _ := asD(cs["g"])
+		key := canon(g)
+		agreed := false
+		switch {
+		case r == nil:
+			unrun++
+			continue
+		case r.skipped != "":
+			skipped++
+		case r.died != "":
+			ctx.ToolError("case %s: %s", key, r.died)
+			continue
+		default:
+			c.apply(r.sink)
+			agreed, _ = r.res["agreed"].(bool)
+			if depthD(g) >= 2 && len(ctx.Samples) < 4 || len(ctx.Samples) < 1 {
+				ctx.Sample(map[string]interface{}{"mode": "M2", "g": g, "o": cs["o"], "expected": cs["v"]})
+			}
+		}
+		if prev, seen := c.byG[key]; seen {
+			agreed = agreed && prev
+		}
+		c.byG[key] = agreed
+	}
+	if skipped > 0 {
+		fmt.Printf("NOTE: property=C20 %d cases not run: they contain a shape already confirmed not to return\n", skipped)
+		ctx.Extra["cases_skipped_after_confirmed_no_return"] = skipped
+	}
+	if unrun > 0 {
+		fmt.Printf("NOTE: property=C20 %d cases not run: the phase was abandoned after %d confirmed non-returning cases\n", unrun, maxConfirmedHangs)
+		ctx.Extra["cases_not_run_phase_abandoned"] = unrun
+	}
+}
+
+// replayCase runs one exported case (g, o) on the real code (worker side).
+func (c *checker) replayCase(cs map[string]interface{}) bool {
 	g, ok := asD(cs["g"])
 	if !ok {
-		ctx.ToolError("case without descriptor")
-		return
+		c.toolError("case without descriptor")
+		return false
 	}
 	key := canon(g)
 	rv, err := build(g)
 	if err != nil {
 		c.buildErrs++
-		if c.buildErrs <= 3 {
-			ctx.ToolError("cannot build %s: %v", key, err)
-		}
-		return
+		c.toolError("cannot build %s: %v", key, err)
+		return false
 	}
 	arg := toArg(rv)
 	hasArray := anyD(g, isArray)
 	e, err := parseExp(cs)
 	if err != nil {
-		ctx.ToolError("bad case %s: %v", key, err)
-		return
+		c.toolError("bad case %s: %v", key, err)
+		return false
 	}
 	agreed, which := c.checkConversion("M2", g, arg, hasArray, e)
 	if dstr(g, "g") != "nil" {
-		ctx.Distinct(key + "|" + e.TF + fmt.Sprint(e.LC))
+		c.distinct(key + "|" + e.TF + fmt.Sprint(e.LC))
 	}
-	ctx.AddTraces(1)
-	if depthD(g) >= 2 && len(ctx.Samples) < 4 || len(ctx.Samples) < 1 {
-		ctx.Sample(map[string]interface{}{"mode": "M2", "g": g, "o": cs["o"], "expected": cs["v"]})
-	}
+	c.addTraces(1)
 	// Tofu.Render converts with the default options; judged only when the
 	// conversion itself agreed with the reference reading
 	if rend, ok := asD(cs["rend"]); ok && dstr(rend, "kind") != "none" && !hasArray && agreed && which == 0 {
@@ -356,20 +431,17 @@ func (c *checker) replayCase(cs map[string]interface{}) {
 			agreed = false
 		}
 	}
-	if prev, seen := c.byG[key]; seen {
-		agreed = agreed && prev
-	}
-	c.byG[key] = agreed
+	return agreed
 }
 
 // checkConversion converts arg under e's options and judges the result.
 // It returns whether the real code agrees and which reading it followed
 // (0 = reference reading, i > 0 = alternative i).
 func (c *checker) checkConversion(mode string, g D, arg interface{}, hasArray bool, e *expEntry) (bool, int) {
-	ctx := c.ctx
 	o := structOpts(e.LC, e.TF)
+	c.phase("convert")
 	got, p := convert(o, arg)
-	ctx.AddEvals(1)
+	c.addEvals(1)
 	rep := func(extra map[string]interface{}) map[string]interface{} {
 		m := map[string]interface{}{"kind": "convert", "mode": mode, "g": g, "o": D{"lc": e.LC, "tf": e.TF}, "expected": svJSON(e.V), "alternatives": svsJSON(e.Alts)}
 		for k, v := range extra {
@@ -382,7 +454,7 @@ func (c *checker) checkConversion(mode string, g D, arg interface{}, hasArray bo
 			c.arrayPanic++ // the converter does not accept arrays: outside the domain
 			return true, -1
 		}
-		ctx.Violation(core.Sig{Family: famConvert, Feature: panicFeature(g, o)},
+		c.violation(core.Sig{Family: famConvert, Feature: panicFeature(g, o)},
 			fmt.Sprintf("data.NewWith panics on a JSON-like value %s: %v (expected %s)", canon(g), p, svText(e.V)),
 			rep(map[string]interface{}{"observed_panic": fmt.Sprint(p)}))
 		return false, -1
@@ -402,7 +474,7 @@ func (c *checker) checkConversion(mode string, g D, arg interface{}, hasArray bo
 		}
 	}
 	if which < 0 {
-		ctx.Violation(core.Sig{Family: famConvert, Feature: convertFeature(g, e.LC, e.TF, e.V, got)},
+		c.violation(core.Sig{Family: famConvert, Feature: convertFeature(g, e.LC, e.TF, e.V, got)},
 			fmt.Sprintf("data.NewWith(%+v, %s): %s; observed %s", o, canon(g), mismatch(e.V, got, ""), show(got)),
 			rep(map[string]interface{}{"observed": encode(got)}))
 		return false, -1
@@ -416,11 +488,12 @@ func (c *checker) checkConversion(mode string, g D, arg interface{}, hasArray bo
 		return true, which // a marshaler returned nil: not a Soy value, no laws to check
 	}
 	// idempotence on the real code: converting the result changes nothing
+	c.phase("reconvert")
 	for _, o2 := range []data.StructOptions{o, {LowerCamel: !e.LC, TimeFormat: time.Kitchen}, data.DefaultStructOptions} {
 		again, p2 := convert(o2, got)
-		ctx.AddEvals(1)
+		c.addEvals(1)
 		if p2 != nil || mismatch(expSV, again, "") != "" || !sameInstance(got, again) {
-			ctx.Violation(core.Sig{Family: famIdem, Feature: "reconvert:" + tagOf(got)},
+			c.violation(core.Sig{Family: famIdem, Feature: "reconvert:" + tagOf(got)},
 				fmt.Sprintf("converting the converted value again changes it: %s -> %s (panic=%v)", show(got), show(again), p2),
 				rep(map[string]interface{}{"observed": encode(got), "second": encode(again)}))
 			ok = false
@@ -428,16 +501,16 @@ func (c *checker) checkConversion(mode string, g D, arg interface{}, hasArray bo
 		}
 	}
 	if wrapped, p2 := convert(o, []interface{}{got, map[string]interface{}{"k": got}}); p2 != nil {
-		ctx.Violation(core.Sig{Family: famIdem, Feature: "nested-reconvert:" + tagOf(got) + ":panic"},
+		c.violation(core.Sig{Family: famIdem, Feature: "nested-reconvert:" + tagOf(got) + ":panic"},
 			fmt.Sprintf("converting a slice holding the converted value panics: %v", p2), rep(nil))
 		ok = false
 	} else if l, isL := wrapped.(data.List); !isL || len(l) != 2 || mismatch(expSV, l[0], "") != "" || !sameInstance(got, l[0]) ||
 		mismatch(&SV{T: "map", M: map[string]*SV{"k": expSV}}, l[1], "") != "" {
-		ctx.Violation(core.Sig{Family: famIdem, Feature: "nested-reconvert:" + tagOf(got)},
+		c.violation(core.Sig{Family: famIdem, Feature: "nested-reconvert:" + tagOf(got)},
 			fmt.Sprintf("a converted value placed in a Go slice/map is changed by conversion: %s -> %s", show(got), show(wrapped)), rep(nil))
 		ok = false
 	}
-	ctx.AddEvals(1)
+	c.addEvals(1)
 	// value laws on the result
 	if which == 0 && e.V.Iso == "" {
 		if !c.checkValueLaws(got, e.Truthy, e.TextOK, e.Text, rep) {
@@ -477,30 +550,31 @@ func safeEquals(a, b data.Value) (e bool, p interface{}) {
 
 // noFraction: the text of fractional floats is not claimed here (C01).
 func (c *checker) checkValueLaws(got data.Value, truthy bool, textOK bool, text string, rep func(map[string]interface{}) map[string]interface{}) bool {
-	ctx := c.ctx
 	ok := true
+	c.phase("truthy")
 	t, p := safeTruthy(got)
-	ctx.AddEvals(1)
+	c.addEvals(1)
 	if p != nil || t != truthy {
-		ctx.Violation(core.Sig{Family: famLaws, Feature: fmt.Sprintf("truthy:%s:observed=%v", valFeature(got), t)},
+		c.violation(core.Sig{Family: famLaws, Feature: fmt.Sprintf("truthy:%s:observed=%v", valFeature(got), t)},
 			fmt.Sprintf("%s.Truthy() = %v (panic=%v), the truthiness table says %v", show(got), t, p, truthy),
 			rep(map[string]interface{}{"kind": "truthy", "value": encode(got), "observed": t, "expected_truthy": truthy}))
 		ok = false
 	}
+	c.phase("string")
 	first, p1 := safeString(got)
 	for i := 0; i < 19; i++ {
 		s, p2 := safeString(got)
 		if s != first || (p1 == nil) != (p2 == nil) {
-			ctx.Violation(core.Sig{Family: famLaws, Feature: "string-nondeterministic:" + tagOf(got)},
+			c.violation(core.Sig{Family: famLaws, Feature: "string-nondeterministic:" + tagOf(got)},
 				fmt.Sprintf("String() of one value gave %q and then %q", first, s),
 				rep(map[string]interface{}{"kind": "string", "value": encode(got), "first": first, "other": s}))
 			ok = false
 			break
 		}
 	}
-	ctx.AddEvals(20)
+	c.addEvals(20)
 	if textOK && (p1 != nil || first != text) {
-		ctx.Violation(core.Sig{Family: famLaws, Feature: "string:" + tagOf(got) + ":wrong-text"},
+		c.violation(core.Sig{Family: famLaws, Feature: "string:" + tagOf(got) + ":wrong-text"},
 			fmt.Sprintf("String() = %q (panic=%v), expected %q", first, p1, text),
 			rep(map[string]interface{}{"kind": "string", "value": encode(got), "observed": first, "expected_text": text}))
 		ok = false
@@ -601,7 +675,6 @@ func render(t *soyhtml.Tofu, arg interface{}) (out string, err error, p interfac
 // checkTofu: Tofu.Render converts its argument; a struct/map reaches the
 // template as the converted map, anything else is an error, never a panic.
 func (c *checker) checkTofu(g D, arg interface{}, rend D) bool {
-	ctx := c.ctx
 	kind := dstr(rend, "kind")
 	var keys []string
 	fields := map[string]string{}
@@ -617,21 +690,22 @@ func (c *checker) checkTofu(g D, arg interface{}, rend D) bool {
 	}
 	t, err := c.tofuFor(keys)
 	if err != nil {
-		ctx.ToolError("tofu template: %v", err)
+		c.toolError("tofu template: %v", err)
 		return true
 	}
+	c.phase("render")
 	out, rerr, p := render(t, arg)
-	ctx.AddEvals(1)
+	c.addEvals(1)
 	rep := map[string]interface{}{"kind": "tofu", "g": g, "rend": rend, "observed_out": out, "observed_err": fmt.Sprint(rerr), "observed_panic": fmt.Sprint(p)}
 	if p != nil {
-		ctx.Violation(core.Sig{Family: famTofu, Feature: "panic:" + descKind(g)},
+		c.violation(core.Sig{Family: famTofu, Feature: "panic:" + descKind(g)},
 			fmt.Sprintf("Tofu.Render panics on argument %s: %v", canon(g), p), rep)
 		return false
 	}
 	switch kind {
 	case "error":
 		if rerr == nil {
-			ctx.Violation(core.Sig{Family: famTofu, Feature: "non-map-argument-accepted"},
+			c.violation(core.Sig{Family: famTofu, Feature: "non-map-argument-accepted"},
 				fmt.Sprintf("Tofu.Render accepts a %s argument (converts to a non-map) without error", descKind(g)), rep)
 			return false
 		}
@@ -642,7 +716,7 @@ func (c *checker) checkTofu(g D, arg interface{}, rend D) bool {
 		}
 		exp := strings.Join(want, "|")
 		if rerr != nil || out != exp {
-			ctx.Violation(core.Sig{Family: famTofu, Feature: "converted-map-not-seen-by-template"},
+			c.violation(core.Sig{Family: famTofu, Feature: "converted-map-not-seen-by-template"},
 				fmt.Sprintf("Tofu.Render(%s): template printing %v gave %q err=%v, expected %q", canon(g), keys, out, rerr, exp), rep)
 			return false
 		}
@@ -666,7 +740,7 @@ type pairRow struct {
 
 func (c *checker) replayPairs(jobs []*job) {
 	ctx := c.ctx
-	var rows []*pairRow
+	var rows []map[string]interface{}
 	n := 0
 	for _, j := range jobs {
 		if j.res == nil || j.err != nil {
@@ -682,48 +756,118 @@ func (c *checker) replayPairs(jobs []*job) {
 			return
 		}
 		for _, ln := range lines {
-			i64, _ := toI64(ln["i"])
 			n64, _ := toI64(ln["n"])
 			n = int(n64)
-			g, _ := asD(ln["g"])
-			vj, _ := asD(ln["v"])
-			sv, err := parseSV(vj)
-			if err != nil {
-				ctx.ToolError("%s: %v", j.name, err)
-				return
-			}
-			r := &pairRow{i: int(i64), g: g, v: sv, truthy: dbool(ln, "truthy")}
-			if t, ok := asD(ln["text"]); ok && dbool(t, "ok") {
-				r.textOK, r.text = true, dstr(t, "s")
-			}
-			eq, _ := ln["eq"].([]interface{})
-			for _, x := range eq {
-				s, _ := x.(string)
-				r.eq = append(r.eq, s)
-			}
-			rows = append(rows, r)
+			rows = append(rows, ln)
 		}
 	}
-	sort.Slice(rows, func(a, b int) bool { return rows[a].i < rows[b].i })
+	idx := func(r map[string]interface{}) int { i, _ := toI64(r["i"]); return int(i) }
+	sort.Slice(rows, func(a, b int) bool { return idx(rows[a]) < idx(rows[b]) })
 	if len(rows) != n || n == 0 {
 		ctx.ToolError("pair export incomplete: %d rows of %d", len(rows), n)
 		return
 	}
+	// rows whose value contains a shape known not to return are left out
+	var skip []int
+	for _, r := range rows {
+		if g, ok := asD(r["g"]); ok && c.hangs.matches(g) != "" {
+			skip = append(skip, idx(r))
+		}
+	}
+	confirmed := 0
+	for round := 0; round < 2; round++ {
+		r := oneShot(&wtask{ID: 1, Kind: "pairs", Rows: rows, Skip: skip}, c.stall())
+		if r.died != "" {
+			ctx.ToolError("pairs worker: %s", r.died)
+			return
+		}
+		if r.done {
+			c.apply(r.sink)
+			ctx.Extra["real_pairs_checked"] = r.res["pairs"]
+			ctx.Extra["pair_values"] = n
+			if len(skip) > 0 {
+				ctx.Extra["pair_rows_skipped_no_return"] = len(skip)
+			}
+			return
+		}
+		// stalled: which row? confirm it alone, report, leave it out, go on
+		var row int
+		var what string
+		fmt.Sscanf(r.label, "%s %d", &what, &row)
+		if row < 1 || row > n {
+			ctx.ToolError("pairs worker stalled without progress (%q)", r.label)
+			return
+		}
+		g, _ := asD(rows[row-1]["g"])
+		again := oneShot(&wtask{ID: 1, Kind: "pairs", Rows: rows, Only: row, Skip: skip}, c.stall())
+		if again.stalled {
+			step := map[string]string{"conv": "convert", "laws": "truthy-or-string", "row": "equals"}[what]
+			ctx.Violation(core.Sig{Family: famLaws, Feature: "no-return:" + step + ":" + skeleton(g)},
+				fmt.Sprintf("the real code does not return (%s of pair row %d, value from %s; confirmed alone in a fresh process)", step, row, canon(g)),
+				map[string]interface{}{"kind": "no-return", "task": "pairs", "g": g, "step": step, "row": row})
+			confirmed++
+		}
+		skip = append(skip, row)
+	}
+	if confirmed > 0 {
+		fmt.Printf("NOTE: property=C20 the pair phase was abandoned after %d confirmed non-returning calls\n", confirmed)
+		return
+	}
+	ctx.ToolError("pairs: repeated unconfirmed stalls")
+}
+
+// pairsTask (worker side): converts every row's value ONCE, checks the value
+// laws on it, then pushes all ordered pairs through Equals. only > 0: just
+// that row (against all others); skip: rows left out.
+func (c *checker) pairsTask(raw []map[string]interface{}, only int, skipList []int) map[string]interface{} {
+	skip := map[int]bool{}
+	for _, i := range skipList {
+		skip[i] = true
+	}
+	var rows []*pairRow
+	for _, ln := range raw {
+		i64, _ := toI64(ln["i"])
+		g, _ := asD(ln["g"])
+		vj, _ := asD(ln["v"])
+		sv, err := parseSV(vj)
+		if err != nil {
+			c.toolError("pair row %d: %v", i64, err)
+			return nil
+		}
+		r := &pairRow{i: int(i64), g: g, v: sv, truthy: dbool(ln, "truthy")}
+		if t, ok := asD(ln["text"]); ok && dbool(t, "ok") {
+			r.textOK, r.text = true, dstr(t, "s")
+		}
+		eq, _ := ln["eq"].([]interface{})
+		for _, x := range eq {
+			s, _ := x.(string)
+			r.eq = append(r.eq, s)
+		}
+		rows = append(rows, r)
+	}
+	n := len(rows)
 	for k, r := range rows {
 		if r.i != k+1 || len(r.eq) != n {
-			ctx.ToolError("pair export malformed at row %d", k+1)
-			return
+			c.toolError("pair export malformed at row %d", k+1)
+			return nil
+		}
+		if skip[r.i] {
+			continue
 		}
 		rv, err := build(r.g)
 		if err != nil {
 			c.buildErrs++
 			continue
 		}
+		c.hb(fmt.Sprintf("conv %d", r.i))
 		got, p := convert(data.DefaultStructOptions, toArg(rv))
-		if p != nil || mismatch(r.v, got, "") != "" {
+		if p != nil || got == nil || mismatch(r.v, got, "") != "" {
 			continue // reported by the conversion cases
 		}
 		r.real, r.ok = got, true
+		if only > 0 && r.i != only {
+			continue
+		}
 		rep := func(extra map[string]interface{}) map[string]interface{} {
 			m := map[string]interface{}{"kind": "law", "g": r.g, "value": encode(got)}
 			for k, v := range extra {
@@ -731,13 +875,15 @@ func (c *checker) replayPairs(jobs []*job) {
 			}
 			return m
 		}
+		c.hb(fmt.Sprintf("laws %d", r.i))
 		c.checkValueLaws(got, r.truthy, r.textOK, r.text, rep)
 	}
 	pairs := 0
 	for _, a := range rows {
-		if !a.ok {
+		if !a.ok || only > 0 && a.i != only {
 			continue
 		}
+		c.hb(fmt.Sprintf("row %d", a.i))
 		for jx, b := range rows {
 			if !b.ok {
 				continue
@@ -749,20 +895,19 @@ func (c *checker) replayPairs(jobs []*job) {
 				"a_equals_b": ab, "b_equals_a": ba, "spec": a.eq[jx]}
 			switch {
 			case p1 != nil || p2 != nil:
-				ctx.Violation(core.Sig{Family: famLaws, Feature: "equals:panic:" + pairFeature(a.real, b.real)},
+				c.violation(core.Sig{Family: famLaws, Feature: "equals:panic:" + pairFeature(a.real, b.real)},
 					fmt.Sprintf("Equals panics on %s, %s: %v %v", show(a.real), show(b.real), p1, p2), rep)
 			case ab != ba:
-				ctx.Violation(core.Sig{Family: famLaws, Feature: "equals:asymmetric:" + pairFeature(a.real, b.real)},
+				c.violation(core.Sig{Family: famLaws, Feature: "equals:asymmetric:" + pairFeature(a.real, b.real)},
 					fmt.Sprintf("%s.Equals(%s) = %v but the converse is %v", show(a.real), show(b.real), ab, ba), rep)
 			case a.eq[jx] == "t" && !ab, a.eq[jx] == "f" && ab:
-				ctx.Violation(core.Sig{Family: famLaws, Feature: fmt.Sprintf("equals:%s:observed=%v", pairFeature(a.real, b.real), ab)},
+				c.violation(core.Sig{Family: famLaws, Feature: fmt.Sprintf("equals:%s:observed=%v", pairFeature(a.real, b.real), ab)},
 					fmt.Sprintf("%s.Equals(%s) = %v, the language says %s", show(a.real), show(b.real), ab, a.eq[jx]), rep)
 			}
 		}
 	}
-	ctx.AddEvals(int64(2 * pairs))
-	ctx.Extra["real_pairs_checked"] = pairs
-	ctx.Extra["pair_values"] = n
+	c.addEvals(int64(2 * pairs))
+	return map[string]interface{}{"pairs": pairs}
 }
 
 // replayCex replays the counterexample of a deviation on the real code and
@@ -802,6 +947,24 @@ func (c *checker) replayCex(cex string) string {
 		default:
 			return "real code DISAGREES with the reference model on this case (see violations)"
 		}
+	}
+	// value laws: evaluated by the real code in a worker
+	r := oneShot(&wtask{ID: 1, Kind: "cex", Text: cex}, c.stall())
+	if r.done {
+		t, _ := r.res["text"].(string)
+		return t
+	}
+	return "the replay of the counterexample did not return (" + r.label + r.died + ")"
+}
+
+// replayLawCex (worker side) evaluates the law of a pair counterexample on the
+// real code.
+func (c *checker) replayLawCex(cex string) string {
+	var m map[string]interface{}
+	d := json.NewDecoder(strings.NewReader(cex))
+	d.UseNumber()
+	if err := d.Decode(&m); err != nil {
+		return "unparsable counterexample: " + err.Error()
 	}
 	a, okA := asD(m["a"])
 	b, okB := asD(m["b"])
@@ -872,11 +1035,11 @@ func (c *checker) probeUnsupported() map[string]string {
 
 // ---- replay of a saved case ----------------------------------------------
 
+// replay re-runs one saved case (worker side: reports go to the sink).
 func (c *checker) replay(path string) {
-	ctx := c.ctx
 	b, err := os.ReadFile(path)
 	if err != nil {
-		ctx.ToolError("replay: %v", err)
+		c.toolError("replay: %v", err)
 		return
 	}
 	var v struct {
@@ -885,7 +1048,7 @@ func (c *checker) replay(path string) {
 	d := json.NewDecoder(bytes.NewReader(b))
 	d.UseNumber()
 	if err := d.Decode(&v); err != nil {
-		ctx.ToolError("replay: %v", err)
+		c.toolError("replay: %v", err)
 		return
 	}
 	r := v.Replay
@@ -902,25 +1065,25 @@ func (c *checker) replay(path string) {
 		k64, _ := toI64(r["step"])
 		k := int(k64)
 		if k < 0 || k >= len(steps) {
-			ctx.ToolError("replay: bad history")
+			c.toolError("replay: bad history")
 			return
 		}
 		whole, err1 := runHistory(steps[:k+1])
 		alone, err2 := runHistory(steps[k : k+1])
 		if err1 != nil || err2 != nil {
-			ctx.ToolError("replay: %v %v", err1, err2)
+			c.toolError("replay: %v %v", err1, err2)
 			return
 		}
-		fmt.Printf("replay history: step %d gives %s; alone %s\n", k, showRes(whole[k]), showRes(alone[0]))
+		c.note("replay history: step %d gives %s; alone %s", k, showRes(whole[k]), showRes(alone[0]))
 		if showRes(whole[k]) != showRes(alone[0]) {
-			ctx.Violation(core.Sig{Family: "history", Feature: "conversion-depends-on-earlier-conversions:" + collision(steps[:k], steps[k])},
+			c.violation(core.Sig{Family: "history", Feature: "conversion-depends-on-earlier-conversions:" + collision(steps[:k], steps[k])},
 				"replayed history: the conversion still depends on the earlier conversions", r)
 		}
 	case "pair":
 		sa, err1 := parseSVi(r["a"])
 		sb, err2 := parseSVi(r["b"])
 		if err1 != nil || err2 != nil {
-			ctx.ToolError("replay: bad pair")
+			c.toolError("replay: bad pair")
 			return
 		}
 		va, _ := sa.toData()
@@ -928,31 +1091,31 @@ func (c *checker) replay(path string) {
 		ab, _ := safeEquals(va, vb)
 		ba, _ := safeEquals(vb, va)
 		spec := dstr(r, "spec")
-		fmt.Printf("replay pair: a.Equals(b)=%v b.Equals(a)=%v spec=%s\n", ab, ba, spec)
+		c.note("replay pair: a.Equals(b)=%v b.Equals(a)=%v spec=%s", ab, ba, spec)
 		if ab != ba || spec == "t" && !ab || spec == "f" && ab {
-			ctx.Violation(core.Sig{Family: famLaws, Feature: fmt.Sprintf("equals:%s:observed=%v", pairFeature(va, vb), ab)}, "replayed pair still fails", r)
+			c.violation(core.Sig{Family: famLaws, Feature: fmt.Sprintf("equals:%s:observed=%v", pairFeature(va, vb), ab)}, "replayed pair still fails", r)
 		}
 	case "truthy", "law", "string":
 		sv, err := parseSVi(r["value"])
 		if err != nil {
-			ctx.ToolError("replay: %v", err)
+			c.toolError("replay: %v", err)
 			return
 		}
 		dv, _ := sv.toData()
 		t, _ := safeTruthy(dv)
-		fmt.Printf("replay value law: %s.Truthy()=%v\n", show(dv), t)
+		c.note("replay value law: %s.Truthy()=%v", show(dv), t)
 		if exp, ok := r["expected_truthy"].(bool); ok && exp != t {
-			ctx.Violation(core.Sig{Family: famLaws, Feature: fmt.Sprintf("truthy:%s:observed=%v", valFeature(dv), t)}, "replayed truthiness still fails", r)
+			c.violation(core.Sig{Family: famLaws, Feature: fmt.Sprintf("truthy:%s:observed=%v", valFeature(dv), t)}, "replayed truthiness still fails", r)
 		}
 	default: // convert / tofu
 		g, ok := asD(r["g"])
 		if !ok {
-			ctx.ToolError("replay: no descriptor")
+			c.toolError("replay: no descriptor")
 			return
 		}
 		rv, err := build(g)
 		if err != nil {
-			ctx.ToolError("replay: %v", err)
+			c.toolError("replay: %v", err)
 			return
 		}
 		if dstr(r, "kind") == "tofu" {
@@ -960,29 +1123,41 @@ func (c *checker) replay(path string) {
 			c.checkTofu(g, toArg(rv), rend)
 			return
 		}
+		if dstr(r, "kind") == "no-return" {
+			// the parent's deadline around this worker decides: if the call
+			// below does not come back the case is reported again
+			lc, tf, err := parseOpts(r["o"])
+			if err != nil {
+				lc, tf = true, "rfc3339"
+			}
+			c.phase("convert")
+			got, p := convert(structOpts(lc, tf), toArg(rv))
+			c.note("replay: the conversion of %s returns (%s, panic=%v)", canon(g), show(got), p)
+			return
+		}
 		if dstr(r, "kind") == "convert-panic" {
 			lc, tf, err := parseOpts(r["o"])
 			if err != nil {
-				ctx.ToolError("replay: %v", err)
+				c.toolError("replay: %v", err)
 				return
 			}
 			o := structOpts(lc, tf)
 			got, p := convert(o, toArg(rv))
-			fmt.Printf("replay convert %s: panic=%v result=%s\n", canon(g), p, show(got))
+			c.note("replay convert %s: panic=%v result=%s", canon(g), p, show(got))
 			if p != nil {
-				ctx.Violation(core.Sig{Family: famConvert, Feature: panicFeature(g, o)},
+				c.violation(core.Sig{Family: famConvert, Feature: panicFeature(g, o)},
 					fmt.Sprintf("data.NewWith still panics on %s: %v", canon(g), p), r)
 			}
 			return
 		}
 		lc, tf, err := parseOpts(r["o"])
 		if err != nil {
-			ctx.ToolError("replay: %v", err)
+			c.toolError("replay: %v", err)
 			return
 		}
 		e := &expEntry{LC: lc, TF: tf}
 		if e.V, err = parseSVi(r["expected"]); err != nil {
-			ctx.ToolError("replay: %v", err)
+			c.toolError("replay: %v", err)
 			return
 		}
 		alts, _ := seqOf(r["alternatives"])
@@ -993,7 +1168,7 @@ func (c *checker) replay(path string) {
 		}
 		e.Truthy, _ = safeTruthy(mustData(e.V))
 		ok2, _ := c.checkConversion("replay", g, toArg(rv), anyD(g, isArray), e)
-		fmt.Printf("replay convert %s: agrees=%v\n", canon(g), ok2)
+		c.note("replay convert %s: agrees=%v", canon(g), ok2)
 	}
 }
 
@@ -1016,10 +1191,12 @@ func mustData(v *SV) data.Value {
 // ---- M3 ------------------------------------------------------------------
 
 type traceLine struct {
-	g   D
-	lc  bool
-	tf  string
-	obs data.Value
+	g      D
+	lc     bool
+	tf     string
+	enc    D          // the observed value as the worker encoded it
+	obs    data.Value // rebuilt from enc (nil if the encoding could not carry it)
+	truthy bool       // obs.Truthy() as observed by the worker
 }
 
 type traceChunk struct {
@@ -1027,12 +1204,60 @@ type traceChunk struct {
 	lines  []traceLine
 }
 
-// recordTraces generates n random nested Go values, converts them with the
-// real code and writes the observations as NDJSON chunks.
+// m3Task (worker side): one recorded conversion of the real code.
+func (c *checker) m3Task(g, od D) map[string]interface{} {
+	rv, err := build(g)
+	if err != nil {
+		c.buildErrs++
+		c.toolError("M3: cannot build %s: %v", canon(g), err)
+		return map[string]interface{}{"builderr": true}
+	}
+	lc, tf, err := parseOpts(od)
+	if err != nil {
+		c.toolError("M3: %v", err)
+		return map[string]interface{}{"builderr": true}
+	}
+	o := structOpts(lc, tf)
+	c.phase("convert")
+	got, p := convert(o, toArg(rv))
+	c.addEvals(1)
+	if p != nil {
+		c.violation(core.Sig{Family: famConvert, Feature: panicFeature(g, o)},
+			fmt.Sprintf("data.NewWith panics on a JSON-like value %s: %v", canon(g), p),
+			map[string]interface{}{"kind": "convert-panic", "mode": "M3", "g": shrinkPanic(g, o), "g_generated": g, "o": od, "observed_panic": fmt.Sprint(p)})
+		return map[string]interface{}{"panic": true}
+	}
+	c.phase("truthy")
+	truthy, _ := safeTruthy(got)
+	c.phase("string")
+	text, tp := safeString(got)
+	return map[string]interface{}{"obs": encode(got), "truthy": truthy, "textok": tp == nil, "text": text}
+}
+
+// recordTraces generates n random nested Go values (parent, seeded), has the
+// workers convert them with the real code and writes the observations as
+// NDJSON chunks.
 func (c *checker) recordTraces(n, perChunk int) []*traceChunk {
 	ctx := c.ctx
 	r := rand.New(rand.NewSource(ctx.Seed))
 	gen := &generator{r: r}
+	tasks := make([]*wtask, 0, n)
+	depthHist := map[int]int{}
+	for i := 0; i < n; i++ {
+		g := gen.value(1 + r.Intn(5))
+		for depthD(g) > 5 {
+			g = gen.value(1 + r.Intn(4))
+		}
+		lc := r.Intn(2) == 0
+		tf := []string{"rfc3339", "stamp"}[r.Intn(2)]
+		depthHist[depthD(g)]++
+		if dstr(g, "g") != "nil" {
+			ctx.Distinct(canon(g) + fmt.Sprint(lc, tf))
+		}
+		tasks = append(tasks, &wtask{Kind: "m3", G: g, O: D{"lc": lc, "tf": tf}})
+	}
+	ctx.Extra["m3_depth_histogram"] = depthHist
+	results := c.runTasks(tasks, nWorkers, c.stall())
 	var chunks []*traceChunk
 	cur := &traceChunk{}
 	var buf bytes.Buffer
@@ -1044,39 +1269,26 @@ func (c *checker) recordTraces(n, perChunk int) []*traceChunk {
 		cur = &traceChunk{}
 		buf.Reset()
 	}
-	depthHist := map[int]int{}
-	for i := 0; i < n; i++ {
-		g := gen.value(1 + r.Intn(5))
-		for depthD(g) > 5 {
-			g = gen.value(1 + r.Intn(4))
-		}
-		rv, err := build(g)
-		if err != nil {
-			c.buildErrs++
-			if c.buildErrs <= 3 {
-				ctx.ToolError("M3: cannot build %s: %v", canon(g), err)
-			}
+	skipped := 0
+	for i, res := range results {
+		t := tasks[i]
+		switch {
+		case res == nil:
+			continue
+		case res.skipped != "":
+			skipped++
+			continue
+		case res.died != "":
+			ctx.ToolError("M3 worker: %s", res.died)
 			continue
 		}
-		arg := toArg(rv)
-		lc := r.Intn(2) == 0
-		tf := []string{"rfc3339", "stamp"}[r.Intn(2)]
-		o := structOpts(lc, tf)
-		got, p := convert(o, arg)
-		ctx.AddEvals(1)
-		depthHist[depthD(g)]++
-		if dstr(g, "g") != "nil" {
-			ctx.Distinct(canon(g) + fmt.Sprint(lc, tf))
+		c.apply(res.sink)
+		enc, ok := asD(res.res["obs"])
+		if !ok {
+			continue // panic / build error / no return: reported through the sink
 		}
-		if p != nil {
-			ctx.Violation(core.Sig{Family: famConvert, Feature: panicFeature(g, o)},
-				fmt.Sprintf("data.NewWith panics on a JSON-like value %s: %v", canon(g), p),
-				map[string]interface{}{"kind": "convert-panic", "mode": "M3", "g": shrinkPanic(g, o), "g_generated": g, "o": D{"lc": lc, "tf": tf}, "observed_panic": fmt.Sprint(p)})
-			continue
-		}
-		truthy, _ := safeTruthy(got)
-		text, tp := safeString(got)
-		line := D{"g": g, "o": D{"lc": lc, "tf": tf}, "obs": encode(got), "truthy": truthy, "textok": tp == nil, "text": text}
+		lc, tf, _ := parseOpts(t.O)
+		line := D{"g": t.G, "o": t.O, "obs": enc, "truthy": res.res["truthy"], "textok": res.res["textok"], "text": res.res["text"]}
 		b, err := json.Marshal(line)
 		if err != nil {
 			ctx.ToolError("M3: %v", err)
@@ -1084,16 +1296,23 @@ func (c *checker) recordTraces(n, perChunk int) []*traceChunk {
 		}
 		buf.Write(b)
 		buf.WriteByte('\n')
-		cur.lines = append(cur.lines, traceLine{g: g, lc: lc, tf: tf, obs: got})
-		if len(ctx.Samples) < 8 && depthD(g) >= 3 {
-			ctx.Sample(map[string]interface{}{"mode": "M3", "g": g, "o": D{"lc": lc, "tf": tf}, "obs": encode(got)})
+		tl := traceLine{g: t.G, lc: lc, tf: tf, enc: enc}
+		tl.truthy, _ = res.res["truthy"].(bool)
+		if sv, err := parseSV(enc); err == nil {
+			tl.obs, _ = sv.toData()
+		}
+		cur.lines = append(cur.lines, tl)
+		if len(ctx.Samples) < 8 && depthD(t.G) >= 3 {
+			ctx.Sample(map[string]interface{}{"mode": "M3", "g": t.G, "o": t.O, "obs": enc})
 		}
 		if len(cur.lines) >= perChunk {
 			flush()
 		}
 	}
 	flush()
-	ctx.Extra["m3_depth_histogram"] = depthHist
+	if skipped > 0 {
+		ctx.Extra["m3_values_skipped_after_confirmed_no_return"] = skipped
+	}
 	return chunks
 }
 
@@ -1133,7 +1352,7 @@ func (c *checker) judgeTrace(j *job, ch *traceChunk) {
 			}
 			ln := ch.lines[n-1]
 			rep := map[string]interface{}{"kind": "convert", "mode": "M3", "g": ln.g, "o": D{"lc": ln.lc, "tf": ln.tf},
-				"observed": encode(ln.obs), "spec_says": json.RawMessage(f[3])}
+				"observed": ln.enc, "spec_says": json.RawMessage(f[3])}
 			switch f[2] {
 			case "convert":
 				var x map[string]interface{}
@@ -1149,15 +1368,15 @@ func (c *checker) judgeTrace(j *job, ch *traceChunk) {
 				ctx.Violation(core.Sig{Family: famConvert, Feature: feature},
 					fmt.Sprintf("TLC rejects the recorded conversion of %s: observed %s, spec %s", canon(ln.g), show(ln.obs), f[3]), rep)
 			case "truthy":
-				t, _ := safeTruthy(ln.obs)
+				t := ln.truthy
 				rep["kind"] = "truthy"
-				rep["value"] = encode(ln.obs)
+				rep["value"] = ln.enc
 				rep["expected_truthy"] = !t
 				ctx.Violation(core.Sig{Family: famLaws, Feature: fmt.Sprintf("truthy:%s:observed=%v", valFeature(ln.obs), t)},
 					fmt.Sprintf("TLC rejects the recorded truthiness of %s: observed %v", show(ln.obs), t), rep)
 			case "text":
 				rep["kind"] = "string"
-				rep["value"] = encode(ln.obs)
+				rep["value"] = ln.enc
 				ctx.Violation(core.Sig{Family: famLaws, Feature: "string:" + tagOf(ln.obs) + ":wrong-text"},
 					fmt.Sprintf("TLC rejects the recorded text of %s: spec %s", show(ln.obs), f[3]), rep)
 			}
